@@ -11,6 +11,8 @@ CLAIMS = {
          "Pointer-level (one container at a time): the composition of these member-wise effects over the whole tree to the RFC result is a meta step (containers form a tree without sharing; DESIGN M-tree). Decoder/encoder behaviour is assumed (K1-K5, K11, K12). "),
  "C02": (TECH, "merge, mergeDocs, pruneNulls, pruneDocNulls, pruneAryNulls and doMergePatch are verified from their SSA: every branch of RFC 7396's pseudo-code is pinned to a branch of the code by call-site clauses (null member => remove, new member => stored after pruning, existing member => recursive merge), arrays are left untouched (frame), ill-formed inputs are rejected.",
          "Member-dispatch level: value-level equality with the recursive RFC function is a meta step (M-tree); assumes A-merge-entry (no node holding the text null exists when MergePatch starts), K1, K2, K12. "),
+ "C03": (TECH, "CreateMergePatch is verified one level of the difference at a time, on the decoded trees: getDiff returns a fresh object that contains exactly - every member of B that A lacks (with B's value), every member of A that B lacks as null, every member whose kind changed (B's value), every scalar member whose value changed (strings by value, numbers by their literal text, booleans) and none that did not, nested objects only when their recursive difference is non-empty, changed arrays replaced by B's; matchesValue/matchesArray compare kinds, strings, number literals, booleans, member names, sizes and lengths; createObjectMergePatch hands the two decoded documents to getDiff and returns its result, createArrayMergePatch pairs the elements by index; ill-formed input, roots that are not both objects / both arrays, scalars and arrays of different length are rejected.",
+         "One level at a time: that the recursive composition is a minimal patch whose application reproduces B (the round-trip law with MergePatch) is a meta step over the tree (M-tree); the link between the decoded map[string]interface{} trees and the JSON texts (K8: numbers as json.Number literals, member names) and the encoder's output (K9) are assumed; CreateMergePatch accepts null elements in arrays of documents (read as empty objects), which the property puts outside its domain. "),
  "C04": (TECH, "Panic-freedom sweep: every SSA instruction that can panic (nil dereference, index, slice bounds, map write to nil, type assertion, division, explicit panic, make with a negative size) in every function of patch.go, merge.go and errors.go of BOTH the v5 module and the legacy root package, and in every state function of the embedded scanner, is an obligation proved under the function's precondition; every call is checked against the callee's precondition; integer overflow obligations on int/int64 arithmetic. Unbounded in input size and nesting.",
          "Termination is proved only where a `decreases` clause is given (loops over slices/maps terminate by construction); recursion depth and memory are not modelled. The reflection-driven decoder/encoder bodies (v5/internal/json decode.go, encode.go; encoding/json for the root) are NOT swept: they are assumed not to panic on input their callers validated (K contracts; for v5 the callers' Valid gates are proved under C16's clauses). Exported functions are verified for every patch DecodePatch can return (patchOK) and any non-nil options, as the property states. "),
  "C05": (TECH, "The order clauses of the container contracts (existing key keeps its position, new key is appended, removal keeps the order of the rest), the frame clauses (untouched children, parsed nodes and raw bytes are not written) and TrustMarshalJSON's emission order (members written in keys order, one name/value per key) are verified from the SSA.",
@@ -36,7 +38,7 @@ CLAIMS = {
  "C18": (TECH, "Legacy root package: every function on the Apply path of /repo/patch.go (container primitives on map/slice values, lazy parsing, pointer walk, the six operations, the dispatch loop, DecodePatch) is verified from its SSA against one-level RFC 6902/6901 contracts with the v4 dialect: index arithmetic with the SupportNegativeIndices package setting, '-' append, member set/remove, move = remove then add of the same node, copy inserts a fresh duplicate with the same value and accounts its size against AccumulatedCopySizeLimit, failing test / absent remove or move source / out-of-range index are errors of the stated kind with no document. Pointers into struct fields (&n.doc, &n.ary) are modelled exactly (paddr encoding).",
          "Pointer-level, one container at a time (composition over the tree is the meta step M-tree). encoding/json's Unmarshal/Marshal/Compact at the used instantiations are assumed (KR contracts in contracts/root.spec). replace of an absent object member succeeds in v4 (outside the property's domain of applicable patches). "),
  "C19": (TECH, "Legacy root package merge.go: merge, mergeDocs, pruneNulls, pruneDocNulls, pruneAryNulls and doMergePatch are verified from their SSA: RFC 7396's branches are pinned by call-site clauses and closed callee lists (null member deletes only when applying, new members are pruned only when applying, existing members are merged recursively with the same mode, arrays are left untouched), ill-formed documents and patches are rejected, no node holding the text null is ever stored; lazyNode.equal treats an absent operand as unequal and leaves already-parsed nodes untouched.",
-         "Member-dispatch level (as C02/C07); CreateMergePatch/getDiff/matchesValue are covered for panic freedom only (their minimality/round-trip laws are not mechanised), and Equal's agreement with structural equality is proved one level at a time only for the null/absent cases. Assumes A-merge-entry and the KR contracts. "),
+         "Member-dispatch level (as C02/C07); CreateMergePatch/getDiff/matchesValue are verified one level of the difference at a time as in C03 (numbers compared as float64 values, the v4 dialect); the round-trip/minimality composition is a meta step; Equal's agreement with structural equality is proved one level at a time only for the null/absent cases. Assumes A-merge-entry and the KR contracts. "),
 }
 NA_REASON = {
  "C17": "reflection-driven codec over arbitrary Go types and relational equivalence with encoding/json are outside what function contracts within reach of an SSA-level VC generator can express (DESIGN.md section 15)",
